@@ -15,7 +15,8 @@ Lines1 == {<<r>> : r \in Runs}
 \* two adjacent runs without any markup are one run in SubRip: not a distinct ground truth
 Lines2 == {p \in Runs \X Runs : ~(StyleOf(p[1]) = Plain /\ StyleOf(p[2]) = Plain)}
 \* line structures of one cue
-Bodies(rich) == {<<l>> : l \in Lines1} \cup (IF rich THEN {<<l>> : l \in Lines2} \cup {<<l1, l2>> : l1 \in Lines1, l2 \in Lines1} ELSE {})
+\* (a cue may have no text line at all: index and timing line followed by the blank line)
+Bodies(rich) == {<<>>} \cup {<<l>> : l \in Lines1} \cup (IF rich THEN {<<l>> : l \in Lines2} \cup {<<l1, l2>> : l1 \in Lines1, l2 \in Lines1} ELSE {})
 \* times incl. carries and the largest representable hour count (instants themselves are C16's business)
 TimePairs == {<<0, 1500>>, <<3599999, 359999999>>, <<61000, 61010>>, <<3723004, 3723400>>}
 TimePairsFor(fam) == IF fam = "B" THEN TimePairs ELSE {<<0, 1500>>, <<3599999, 359999999>>}
